@@ -42,6 +42,8 @@ def search(ctx, broken):
         c.seed = ctx.seed + 977 * k
         c.driver = None
         found += ce.explore_cache(c, PROPS, 400, steps=7)["violations"]
+        if not found:
+            found += ce.explore_cache(c, PROPS, 400, steps=7, stress=True)["violations"]
         if found:
             break
     return found
